@@ -71,6 +71,7 @@ def cases(tier, seed):
     for S in subsets():
         yield dict(kind='list', S=S, tier=tier)
     yield dict(kind='scalar', tier=tier)
+    yield dict(kind='subsample', tier=tier)
     for v in range(1, len(PNE_SPELLINGS)):
         yield dict(kind='spelling', variant=v, tier=tier)
     yield dict(kind='none', tier=tier)
@@ -184,6 +185,26 @@ def run_case(c):
                             if okseq:
                                 res.ok('list:k=%d' % k, k > 0)
             res.sample({'channels': spellings(S, tier)[-1], 'override menus': [repr(ATM), repr(GM), repr(RM)]})
+        elif c['kind'] == 'subsample':
+            # samples obtained by indexing: the per-channel settings must follow the columns
+            subs = [('d[:, 1:]', d[:, 1:], [1, 2, 3]), ('d[:, ::-1]', d[:, ::-1], [3, 2, 1, 0]), ("d[:, ['CH4', 'CH2']]", d[:, ['CH4', 'CH2']], [3, 1]),
+                    ('d[100:200, 2:]', d[100:200, 2:], [2, 3]), ('d[:, 1:3][:, ::-1]', d[:, 1:3][:, ::-1], [2, 1]), ("d[:, 'CH2']  (1-D)", None, None),
+                    ('d[::7, [0, 1]]', d[::7, [0, 1]], [0, 1]), ('d[:, -3:-1]', d[:, -3:-1], [1, 2])]
+            for label, sub, cols in subs:
+                if sub is None:
+                    continue
+                sbase = np.array(sub.view(np.ndarray))
+                requests = [(None, list(range(len(cols))))] + [(sub.channels[i], [i]) for i in range(len(cols))] + [(list(range(len(cols)))[::-1], list(range(len(cols))))]
+                for req, sel in requests:
+                    what = 'to_rfi(%s, %r)' % (label, req)
+                    try:
+                        t = to_rfi(sub, req)
+                    except Exception as e:
+                        res.violation('subsample:raises:%s' % type(e).__name__, '%s raised %s: %s' % (what, type(e).__name__, e), dict(c))
+                        continue
+                    if expect_ok(res, 'subsample', what, sub, sbase, t, {i: law(cols[i], None, None, None) for i in sel}, dict(c)):
+                        res.ok('subsample', True)
+            res.sample({'subsamples': [x[0] for x in subs]})
         elif c['kind'] == 'spelling':
             # the same amplifier settings written with other numeric spellings in $PnE / $PnG
             d2 = sample(c['variant'])
